@@ -810,6 +810,7 @@ def oracle(ctx, volume=1):
     oracle_truncation(ctx, volume)
     oracle_kraus(ctx, volume)
     oracle_eps_zero(ctx, volume)
+    oracle_rare_branch(ctx, volume)
     oracle_list_args(ctx)
 
 
@@ -1065,6 +1066,36 @@ def oracle_eps_zero(ctx, volume=1):
         if bad or diff:
             ctx.violate(sig, f"MProcess with eps_zero={eps} and an outcome of probability {c}: composites {bad} carry the default "
                              f"eps_zero; bracketings that disagree: {diff}", rep)
+
+
+
+def oracle_rare_branch(ctx, volume=1):
+    """a user-built StateEnsemble (constructor defaults) with a rare but far-from-negligible branch (weight 1e-6 ≫ the
+    1e-8 threshold): a POVM, a gate and a measurement process applied to it must keep that branch's statistics"""
+    g = ctx.npgen(11)
+    S = get_sys("qubit")
+    for t in range(2 * volume):
+        wt = [1e-6, 3e-5][t % 2]
+        rhos = [qobj.rand_density(g, S.d), qobj.rand_density(g, S.d)]
+        ens = StateEnsemble([State(S.c, S.vec(r)) for r in rhos], MultinomialDistribution(np.array([wt, 1 - wt]), shape=(2,)))
+        P, G = mk_povm(g, S, 3), mk_gate(g, S, unitary=True)
+        rep = {"replay_kind": "rare-branch", "t": t, "weight": wt, "volume": volume}
+        ctx.case(("rare-branch", t), sample={"op": "rare ensemble branch", "weight": wt})
+        ku = G["sem"].items[0][0]
+        try:
+            d1 = _compose_qoperations(P["obj"], ens)
+            d2 = _compose_qoperations(P["obj"], _compose_qoperations(G["obj"], ens))
+        except Exception as e:  # noqa
+            ctx.violate("C06/compose/StateEnsemble-rare-branch/raises", f"{type(e).__name__}: {e}", rep)
+            continue
+        ws = [wt, 1 - wt]
+        ref1 = np.array([w * np.trace(e @ r).real for w, r in zip(ws, rhos) for e in P["sem"].items])
+        ref2 = np.array([w * np.trace(e @ ku @ r @ ku.conj().T).real for w, r in zip(ws, rhos) for e in P["sem"].items])
+        for name, d, ref in (("Povm∘E", d1, ref1), ("Povm∘(Gate∘E)", d2, ref2)):
+            if tuple(d.shape) != (2, 3) or not np.allclose(d.ps, ref, atol=1e-10, rtol=1e-6):
+                ctx.violate("C06/compose/StateEnsemble-rare-branch/value",
+                            f"{name}: the branch of weight {wt} lost its statistics ({np.array(d.ps)[:3]} instead of {ref[:3]})", rep)
+                break
 
 
 def oracle_truncation(ctx, volume=1):
